@@ -54,6 +54,7 @@ class Ref:
         self.trace = []
         self.sleeps = []          # Fraction, or ('range', lo, hi) for jittered ones
         self.errors = []          # (name, msg, step module, swallowed)
+        self.error_pos = []       # where the recording step is written: (group, index, written as a bare name?)
         self.budget = 5000
         self.notes = set()
 
@@ -482,6 +483,7 @@ class Ref:
                 if st.get('onError'):
                     custom = self.fmt(st['onError'])       # the payload is formatted when recording
                 self.errors.append((e.name, e.msg, st['module'], swallow, custom))
+                self.error_pos.append(st.get('pos'))
                 e.recorded = True
             if not swallow:
                 raise
@@ -589,8 +591,9 @@ def prepare(case):
         groups = []
         for g, steps in pgroups:
             out = []
-            for st in steps or []:
-                d = {'body': st['body'], 'module': engine.BODIES[st['body']][0]}
+            for i, st in enumerate(steps or []):
+                d = {'body': st['body'], 'module': engine.BODIES[st['body']][0],
+                     'pos': [pname, g, i, bool(st.get('simple'))]}
                 if st.get('simple'):
                     out.append(d)
                     continue
@@ -625,5 +628,5 @@ def reference(case):
         return MISSING if x is MISSING else canon(x)
     trace = [[cv(e['tag']), cv(e['i']), cv(e['wc']), cv(e['rc']), [cv(x) for x in e['watch']]]
              for e in ref.trace]
-    return {'outcome': outcome, 'trace': trace, 'sleeps': ref.sleeps, 'errors': ref.errors,
+    return {'outcome': outcome, 'trace': trace, 'sleeps': ref.sleeps, 'errors': ref.errors, 'error_pos': ref.error_pos,
             'notes': sorted(ref.notes)}
